@@ -18,26 +18,32 @@
 From Coq Require Import List Ascii String ZArith NArith Bool Lia.
 From Anthem Require Import Base.ISet Base.Fresh Syntax.Fol Syntax.Asp
   Model.Subst Model.Break Model.Problem Model.ProblemPrint Model.Outline Model.Strong Model.External
-  Proofs.FreeVars Proofs.DecomposeOk Proofs.ExternalOk Proofs.AssemblyOk Proofs.OutlineOk Proofs.C19Ext
+  Proofs.FreeVars Proofs.DecomposeOk Proofs.ExternalOk Proofs.AssemblyOk Proofs.OutlineOk Proofs.C19Ext Proofs.TasksClosed
   Proofs.TaskPipelineBn Proofs.TaskPipelineClosed.
 Import ListNotations.
 Open Scope string_scope.
 Open Scope list_scope.
 
-Definition all_sent (l : list pformula) : Prop := forall a, In a l -> sent (pf_formula a).
-Lemma all_sent_app l1 l2 : all_sent (l1 ++ l2) <-> all_sent l1 /\ all_sent l2.
+Section Shape.
+(* [P]: the class of formulas tracked through the assembly; [sent] below, or [fun _ => True] for the
+   bare shape *)
+Variable P : formula -> Prop.
+Hypothesis P_break : forall f, P f -> forall g, In g (break_equivalences_formula f) -> P g.
+
+Definition all_P (l : list pformula) : Prop := forall a, In a l -> P (pf_formula a).
+Lemma all_P_app l1 l2 : all_P (l1 ++ l2) <-> all_P l1 /\ all_P l2.
 Proof.
-  unfold all_sent. split.
+  unfold all_P. split.
   - intros H. split; intros a Ha; apply H, in_app_iff; auto.
   - intros [H1 H2] a Ha. apply in_app_iff in Ha. destruct Ha; auto.
 Qed.
-Lemma all_sent_nil : all_sent [].
+Lemma all_P_nil : all_P [].
 Proof. intros a []. Qed.
 
 (* what C09_text / C06_in_pipeline need of an emitted problem *)
-Definition task_problem_ok (pb : problem) : Prop :=
+Definition problem_P (pb : problem) : Prop :=
   exists raw d pb', In pb' (pipeline raw d) /\ pb_formulas pb = pb_formulas pb' /\
-    forall a, In a (pb_formulas raw) -> sent (pf_formula a).
+    forall a, In a (pb_formulas raw) -> P (pf_formula a).
 
 (* ---------- the two problem shapes ---------- *)
 Lemma pipeline_finished name l d : pipeline (mkproblem name l) d = decompose (finished name l) d.
@@ -70,8 +76,8 @@ Proof.
 Qed.
 
 (* an outline problem: axioms followed by one conjecture, not decomposed *)
-Lemma outline_problem_ok name axs c : all_role PAxiom axs -> pf_role c = PConjecture ->
-  all_sent axs -> sent (pf_formula c) -> task_problem_ok (outline_problem name axs c).
+Lemma outline_problem_P name axs c : all_role PAxiom axs -> pf_role c = PConjecture ->
+  all_P axs -> P (pf_formula c) -> problem_P (outline_problem name axs c).
 Proof.
   intros Hax Hc Hs Hsc. rewrite outline_problem_finished.
   set (F := finished name (axs ++ [c])).
@@ -86,9 +92,9 @@ Proof.
   - cbn [pb_formulas]. intros a Ha. apply in_app_iff in Ha. destruct Ha as [Ha|[<-|[]]]; auto.
 Qed.
 
-Lemma final_problem_ok name stable premises lemmas conclusions dec pb :
-  all_sent (stable ++ premises ++ flat_map gl_consequences lemmas ++ conclusions) ->
-  In pb (final_problem name stable premises lemmas conclusions dec) -> task_problem_ok pb.
+Lemma final_problem_P name stable premises lemmas conclusions dec pb :
+  all_P (stable ++ premises ++ flat_map gl_consequences lemmas ++ conclusions) ->
+  In pb (final_problem name stable premises lemmas conclusions dec) -> problem_P pb.
 Proof.
   intros Hs Hin. rewrite final_problem_eq, <- pipeline_finished in Hin.
   eexists _, dec, pb. split; [exact Hin|]. split; [reflexivity|exact Hs].
@@ -97,18 +103,18 @@ Qed.
 Lemma in_firstn_in {A} k : forall (l : list A) x, In x (firstn k l) -> In x l.
 Proof. induction k as [|k IH]; intros [|a l] x; cbn; try tauto. intros [->|H]; auto. Qed.
 
-Definition lemma_ok (g : general_lemma) : Prop :=
-  lemma_roles g /\ all_sent (gl_conjectures g) /\ all_sent (gl_consequences g).
+Definition lemma_P (g : general_lemma) : Prop :=
+  lemma_roles g /\ all_P (gl_conjectures g) /\ all_P (gl_consequences g).
 
-Lemma direction_problems_ok prefix stable premises defs lemmas conclusions dec pb :
+Lemma direction_problems_P prefix stable premises defs lemmas conclusions dec pb :
   all_role PAxiom stable -> all_role PAxiom premises ->
-  all_sent stable -> all_sent premises -> all_sent conclusions ->
-  (forall d, In d defs -> sent (an_formula d)) -> (forall g, In g lemmas -> lemma_ok g) ->
-  In pb (direction_problems prefix stable premises defs lemmas conclusions dec) -> task_problem_ok pb.
+  all_P stable -> all_P premises -> all_P conclusions ->
+  (forall d, In d defs -> P (an_formula d)) -> (forall g, In g lemmas -> lemma_P g) ->
+  In pb (direction_problems prefix stable premises defs lemmas conclusions dec) -> problem_P pb.
 Proof.
   intros Rs Rp Ss Sp Sc Sd Hl. unfold direction_problems. intros Hin. apply in_app_iff in Hin.
   assert (Hcons : forall ls, incl ls lemmas ->
-            all_role PAxiom (flat_map gl_consequences ls) /\ all_sent (flat_map gl_consequences ls)).
+            all_role PAxiom (flat_map gl_consequences ls) /\ all_P (flat_map gl_consequences ls)).
   { intros ls Hi. split; intros a Ha; apply in_flat_map in Ha; destruct Ha as [g [Hg Ha]];
       destruct (Hl g (Hi g Hg)) as [[_ R2] [_ S2]]; auto. }
   destruct Hin as [Hin|Hin].
@@ -117,57 +123,100 @@ Proof.
     destruct (Hl g Hg) as [[R1 _] [S1 _]].
     assert (Hc : In c (gl_conjectures g)) by (eapply nth_error_In; exact Hj).
     destruct (Hcons (firstn k lemmas)) as [Rc Scs]; [intros x Hx; eapply in_firstn_in; exact Hx|].
-    apply outline_problem_ok; [| apply R1, Hc | | apply S1, Hc ].
+    apply outline_problem_P; [| apply R1, Hc | | apply S1, Hc ].
     + repeat apply all_role_app; auto.
       intros a Ha. apply in_map_iff in Ha. destruct Ha as [d [<- _]]. reflexivity.
-    + repeat (apply all_sent_app; split); auto.
+    + repeat (apply all_P_app; split); auto.
       intros a Ha. apply in_map_iff in Ha. destruct Ha as [d [<- Hd]]. cbn. apply Sd, Hd.
-  - apply (final_problem_ok _ _ _ _ _ _ _) in Hin; [exact Hin|].
-    destruct (Hcons lemmas (incl_refl _)) as [_ Scs]. repeat (apply all_sent_app; split); auto.
+  - apply (final_problem_P _ _ _ _ _ _ _) in Hin; [exact Hin|].
+    destruct (Hcons lemmas (incl_refl _)) as [_ Scs]. repeat (apply all_P_app; split); auto.
 Qed.
 
 (* ---------- the contributions of the two sides ---------- *)
-Lemma conclusions_of_sent brk a : sent (an_formula a) -> all_sent (conclusions_of brk a).
+Lemma conclusions_of_P brk a : P (an_formula a) -> all_P (conclusions_of brk a).
 Proof.
   intros H c Hc. apply (in_map pf_formula) in Hc. rewrite conclusions_of_forms in Hc.
-  destruct brk; [exact (break_sent _ H _ Hc)|]. destruct Hc as [<-|[]]. exact H.
+  destruct brk; [exact (P_break _ H _ Hc)|]. destruct Hc as [<-|[]]. exact H.
 Qed.
-Lemma all_sent_one a : sent (pf_formula a) -> all_sent [a].
+Lemma all_P_one a : P (pf_formula a) -> all_P [a].
 Proof. intros H x [<-|[]]. exact H. Qed.
-Definition contrib_sent (c : contrib) : Prop :=
-  all_sent (c_stable c) /\ all_sent (c_fp c) /\ all_sent (c_fc c) /\ all_sent (c_bp c) /\ all_sent (c_bc c).
-Lemma left_contrib_sent brk a c : left_contrib brk a = Some c -> sent (an_formula a) -> contrib_sent c.
+Definition contrib_P (c : contrib) : Prop :=
+  all_P (c_stable c) /\ all_P (c_fp c) /\ all_P (c_fc c) /\ all_P (c_bp c) /\ all_P (c_bc c).
+Lemma left_contrib_P brk a c : left_contrib brk a = Some c -> P (an_formula a) -> contrib_P c.
 Proof.
   intros E H. unfold left_contrib in E.
-  assert (H1 : all_sent [into_problem_formula a PAxiom]) by (apply all_sent_one; exact H).
+  assert (H1 : all_P [into_problem_formula a PAxiom]) by (apply all_P_one; exact H).
   destruct (an_role a); try discriminate.
-  - destruct (an_dir a); injection E as <-; unfold contrib_sent; repeat apply conj; cbn; try apply all_sent_nil; exact H1.
-  - injection E as <-. unfold contrib_sent; repeat apply conj; cbn; try apply all_sent_nil.
-    + destruct (dir_forward (an_dir a)); [exact H1|apply all_sent_nil].
-    + destruct (dir_backward (an_dir a)); [apply conclusions_of_sent, H|apply all_sent_nil].
+  - destruct (an_dir a); injection E as <-; unfold contrib_P; repeat apply conj; cbn; try apply all_P_nil; exact H1.
+  - injection E as <-. unfold contrib_P; repeat apply conj; cbn; try apply all_P_nil.
+    + destruct (dir_forward (an_dir a)); [exact H1|apply all_P_nil].
+    + destruct (dir_backward (an_dir a)); [apply conclusions_of_P, H|apply all_P_nil].
 Qed.
-Lemma right_contrib_sent brk a c : right_contrib brk a = Some c -> sent (an_formula a) -> contrib_sent c.
+Lemma right_contrib_P brk a c : right_contrib brk a = Some c -> P (an_formula a) -> contrib_P c.
 Proof.
   intros E H. unfold right_contrib in E.
-  assert (H1 : all_sent [into_problem_formula a PAxiom]) by (apply all_sent_one; exact H).
+  assert (H1 : all_P [into_problem_formula a PAxiom]) by (apply all_P_one; exact H).
   destruct (an_role a); try discriminate.
-  - destruct (an_dir a); injection E as <-; unfold contrib_sent; repeat apply conj; cbn; try apply all_sent_nil; exact H1.
-  - injection E as <-. unfold contrib_sent; repeat apply conj; cbn; try apply all_sent_nil.
-    + destruct (dir_forward (an_dir a)); [apply conclusions_of_sent, H|apply all_sent_nil].
-    + destruct (dir_backward (an_dir a)); [exact H1|apply all_sent_nil].
+  - destruct (an_dir a); injection E as <-; unfold contrib_P; repeat apply conj; cbn; try apply all_P_nil; exact H1.
+  - injection E as <-. unfold contrib_P; repeat apply conj; cbn; try apply all_P_nil.
+    + destruct (dir_forward (an_dir a)); [apply conclusions_of_P, H|apply all_P_nil].
+    + destruct (dir_backward (an_dir a)); [exact H1|apply all_P_nil].
 Qed.
-Lemma contribs_sent f l :
-  (forall a c, f a = Some c -> sent (an_formula a) -> contrib_sent c) ->
-  (forall a, In a l -> sent (an_formula a)) ->
-  forall cs, contribs f l = Some cs -> contrib_sent cs.
+Lemma contribs_P f l :
+  (forall a c, f a = Some c -> P (an_formula a) -> contrib_P c) ->
+  (forall a, In a l -> P (an_formula a)) ->
+  forall cs, contribs f l = Some cs -> contrib_P cs.
 Proof.
   intros Hf. induction l as [|a l IH]; intros Hl cs; cbn [contribs].
-  - intros [= <-]. unfold contrib_sent; repeat apply conj; apply all_sent_nil.
+  - intros [= <-]. unfold contrib_P; repeat apply conj; apply all_P_nil.
   - destruct (f a) as [c|] eqn:Ec; [|discriminate]. destruct (contribs f l) as [cs'|]; [|discriminate].
     intros [= <-]. destruct (Hf a c Ec (Hl a (or_introl eq_refl))) as [H1 [H2 [H3 [H4 H5]]]].
     destruct (IH (fun b Hb => Hl b (or_intror Hb)) cs' eq_refl) as [G1 [G2 [G3 [G4 G5]]]].
-    unfold contrib_sent; repeat apply conj; cbn; apply all_sent_app; split; assumption.
+    unfold contrib_P; repeat apply conj; cbn; apply all_P_app; split; assumption.
 Qed.
+
+(* the assembled task *)
+Definition outline_P (o : proof_outline) : Prop :=
+  (forall g, In g (forward_lemmas o) -> lemma_P g) /\ (forall g, In g (backward_lemmas o) -> lemma_P g) /\
+  (forall d, In d (forward_definitions o) -> P (an_formula d)) /\
+  (forall d, In d (backward_definitions o) -> P (an_formula d)).
+
+Theorem assembled_P vt w' a : validated_assemble vt = Some (w', a) ->
+  (forall x, In x (vt_left vt) -> P (an_formula x)) -> (forall x, In x (vt_right vt) -> P (an_formula x)) ->
+  (forall x, In x (vt_user_guide_assumptions vt) -> P (an_formula x)) -> outline_P (vt_proof_outline vt) ->
+  forall pb, In pb (assembled_decompose a) -> problem_P pb.
+Proof.
+  intros Ea HL HR HU [O1 [O2 [O3 O4]]].
+  destruct (validated_assemble_contribs _ _ _ Ea) as (cl & cr & Ecl & Ecr & Est & Efp & Efc & Ebp & Ebc & Eout & Edec & Edir).
+  destruct (contribs_roles _ _ (left_contrib_roles (vt_break vt)) cl Ecl) as [L1 [L2 [L3 [L4 L5]]]].
+  destruct (contribs_roles _ _ (right_contrib_roles (vt_break vt)) cr Ecr) as [R1 [R2 [R3 [R4 R5]]]].
+  destruct (contribs_P _ _ (left_contrib_P (vt_break vt)) HL cl Ecl) as [SL1 [SL2 [SL3 [SL4 SL5]]]].
+  destruct (contribs_P _ _ (right_contrib_P (vt_break vt)) HR cr Ecr) as [SR1 [SR2 [SR3 [SR4 SR5]]]].
+  assert (Rst : all_role PAxiom (at_stable_premises a)).
+  { rewrite Est. repeat apply all_role_app; auto. intros x Hx. apply in_map_iff in Hx. destruct Hx as [y [<- _]]. reflexivity. }
+  assert (Sst : all_P (at_stable_premises a)).
+  { rewrite Est. repeat (apply all_P_app; split); auto.
+    intros x Hx. apply in_map_iff in Hx. destruct Hx as [y [<- Hy]]. cbn. apply HU, Hy. }
+  intros pb Hpb. unfold assembled_decompose in Hpb. apply in_app_iff in Hpb. destruct Hpb as [Hpb|Hpb].
+  - destruct (dir_forward (at_direction a)); [|destruct Hpb].
+    revert Hpb. apply direction_problems_P; rewrite ?Efp, ?Efc, ?Eout; auto.
+    + apply all_role_app; auto.
+    + apply all_P_app; auto.
+    + apply all_P_app; auto.
+  - destruct (dir_backward (at_direction a)); [|destruct Hpb].
+    revert Hpb. apply direction_problems_P; rewrite ?Ebp, ?Ebc, ?Eout; auto.
+    + apply all_role_app; auto.
+    + apply all_P_app; auto.
+    + apply all_P_app; auto.
+Qed.
+End Shape.
+
+(* the instance used below: sentences without empty comparison *)
+Notation all_sent := (all_P sent).
+Notation lemma_ok := (lemma_P sent).
+Notation task_problem_ok := (problem_P sent).
+Notation outline_sent := (outline_P sent).
+Definition all_sent_one := all_P_one sent.
 
 (* ---------- the proof outline ---------- *)
 Lemma rp_bn m f : binders_nonempty (rp_formula m f) = binders_nonempty f.
@@ -226,10 +275,6 @@ Proof.
     + intros c [<-|[]]. exact Hs.
 Qed.
 
-Definition outline_sent (o : proof_outline) : Prop :=
-  (forall g, In g (forward_lemmas o) -> lemma_ok g) /\ (forall g, In g (backward_lemmas o) -> lemma_ok g) /\
-  (forall d, In d (forward_definitions o) -> sent (an_formula d)) /\
-  (forall d, In d (backward_definitions o) -> sent (an_formula d)).
 Lemma in_snoc {A} (P : A -> Prop) l x : (forall y, In y l -> P y) -> P x -> forall y, In y (l ++ [x]) -> P y.
 Proof. intros H Hx y Hy. apply in_app_iff in Hy. destruct Hy as [Hy|[<-|[]]]; auto. Qed.
 
@@ -267,7 +312,7 @@ Proof.
       assert (Hg : lemma_ok g).
       { apply (try_from_ok _ g Eg). cbn [an_formula rp_annot]. apply rp_sent. destruct Himg. apply ucj_sent; assumption. }
       apply IH; [exact Hl'|].
-      destruct (an_dir anf); unfold outline_sent; cbn [forward_lemmas backward_lemmas forward_definitions backward_definitions];
+      destruct (an_dir anf); unfold outline_P; cbn [forward_lemmas backward_lemmas forward_definitions backward_definitions];
         repeat apply conj; auto; apply in_snoc; auto. }
     revert Hlemma. destruct (an_role anf) eqn:Erole; intros Hlemma; try discriminate.
     + exact Hlemma.
@@ -275,7 +320,7 @@ Proof.
       assert (Hd : sent (an_formula anf)).
       { destruct Himg as [A B]. split; [exact (definition_closed _ _ _ _ Ed A)|exact B]. }
       apply IH; [exact Hl'|].
-      destruct (an_dir anf); unfold outline_sent; cbn [forward_lemmas backward_lemmas forward_definitions backward_definitions];
+      destruct (an_dir anf); unfold outline_P; cbn [forward_lemmas backward_lemmas forward_definitions backward_definitions];
         repeat apply conj; auto; apply in_snoc; auto.
     + exact Hlemma.
 Qed.
@@ -283,7 +328,7 @@ Corollary from_specification_sent s taken m o ws :
   (forall a, In a s -> user_image (an_formula a)) -> from_specification s taken m = Ok (o, ws) -> outline_sent o.
 Proof.
   intros Hs. unfold from_specification. apply from_specification_loop_sent; [exact Hs|].
-  unfold outline_sent; repeat apply conj; intros x [].
+  unfold outline_P; repeat apply conj; intros x [].
 Qed.
 
 (* ---------- user guide assumptions, control_translate ---------- *)
@@ -359,29 +404,27 @@ Proof.
   assert (HU : forall x, In x uga -> sent (an_formula x)).
   { intros x Hx. destruct (user_guide_assumptions_in _ _ _ _ _ _ _ Eu x Hx) as [[]|[x0 [Hx0 [Ha ->]]]].
     cbn. apply rp_sent. exact (Uu x0 Hx0 Ha). }
-  pose proof (from_specification_sent _ _ _ _ _ Uo Eo) as [O1 [O2 [O3 O4]]].
-  (* the assembled task *)
-  destruct (validated_assemble_contribs _ _ _ Ea) as (cl & cr & Ecl & Ecr & Est & Efp & Efc & Ebp & Ebc & Eout & Edec & Edir).
-  cbn [vt_left vt_right vt_break vt_user_guide_assumptions vt_proof_outline vt_decomposition vt_direction] in *.
-  destruct (contribs_roles _ _ (left_contrib_roles (et_break t)) cl Ecl) as [L1 [L2 [L3 [L4 L5]]]].
-  destruct (contribs_roles _ _ (right_contrib_roles (et_break t)) cr Ecr) as [R1 [R2 [R3 [R4 R5]]]].
-  destruct (contribs_sent _ _ (left_contrib_sent (et_break t)) HL cl Ecl) as [SL1 [SL2 [SL3 [SL4 SL5]]]].
-  destruct (contribs_sent _ _ (right_contrib_sent (et_break t)) HR cr Ecr) as [SR1 [SR2 [SR3 [SR4 SR5]]]].
-  assert (Rst : all_role PAxiom (at_stable_premises a)).
-  { rewrite Est. repeat apply all_role_app; auto. intros x Hx. apply in_map_iff in Hx. destruct Hx as [y [<- _]]. reflexivity. }
-  assert (Sst : all_sent (at_stable_premises a)).
-  { rewrite Est. repeat (apply all_sent_app; split); auto.
-    intros x Hx. apply in_map_iff in Hx. destruct Hx as [y [<- Hy]]. cbn. apply HU, Hy. }
-  intros pb Hpb. unfold assembled_decompose in Hpb. apply in_app_iff in Hpb. destruct Hpb as [Hpb|Hpb].
-  - destruct (dir_forward (at_direction a)); [|destruct Hpb].
-    revert Hpb. apply direction_problems_ok; rewrite ?Efp, ?Efc, ?Eout; auto.
-    + apply all_role_app; auto.
-    + apply all_sent_app; auto.
-    + apply all_sent_app; auto.
-  - destruct (dir_backward (at_direction a)); [|destruct Hpb].
-    revert Hpb. apply direction_problems_ok; rewrite ?Ebp, ?Ebc, ?Eout; auto.
-    + apply all_role_app; auto.
-    + apply all_sent_app; auto.
-    + apply all_sent_app; auto.
+  pose proof (from_specification_sent _ _ _ _ _ Uo Eo) as Ho.
+  intros pb Hpb. revert Hpb. apply (assembled_P sent break_sent _ _ _ Ea); auto.
+Qed.
+
+(* the bare shape, no premise: every emitted problem has the formulas of a pipeline member *)
+Theorem external_shape t w pbs :
+  decompose_ext t = Ok (w, pbs) -> forall pb, In pb pbs -> problem_P (fun _ => True) pb.
+Proof.
+  intros H.
+  destruct (external_task_validated _ _ _ _ _ t w pbs H) as [vt [w3 [Hv Hvd]]].
+  unfold validated_decompose in Hvd. destruct (validated_assemble vt) as [[w' a]|] eqn:Ea; [|discriminate].
+  injection Hvd as _ <-.
+  unfold task_validated in Hv.
+  destruct (side_left tau_star completion simp_classic t) as [lft|] eqn:EL; [|discriminate].
+  destruct (side_right tau_star completion simp_classic t) as [rgt|] eqn:ER; [|discriminate].
+  destruct (user_guide_assumptions _ _ _ [] []) as [[uga w1]|e|] eqn:Eu; try discriminate.
+  destruct (from_specification _ _ _) as [[o pw]|e|] eqn:Eo; try discriminate.
+  injection Hv as <-.
+  destruct (from_specification_ok_closed _ _ _ _ _ Eo) as (_ & _ & _ & _ & _ & F1 & F2).
+  apply (assembled_P (fun _ => True) (fun _ _ _ _ => I) _ _ _ Ea); cbn; auto.
+  unfold outline_P, lemma_P, all_P. rewrite Forall_forall in F1, F2.
+  repeat apply conj; auto; intros g Hg; [destruct (F1 g Hg) as [_ R]|destruct (F2 g Hg) as [_ R]]; auto.
 Qed.
 End Task.
